@@ -49,17 +49,17 @@ def _stage_job(job):
     def tok(d):
         return toks.setdefault(d, len(toks) + 1)
 
-    def do(idx):
+    def do(idx, plot=False):
         nonlocal ncalls
         try:
-            outs, intact = st.call(np.asarray(idx, dtype=int))
+            outs, intact = st.call(np.asarray(idx, dtype=int), plot=True) if plot else st.call(np.asarray(idx, dtype=int))
             outs = [tok(d) for d in outs]
             err = None
         except Exception as ex:          # a stage that raises on a legal batch: no outputs
             outs, intact, err = [], True, repr(ex)[:200]
         ncalls += 1
         events.append({"kind": "Call", "ids": [int(i) + 1 for i in idx], "outs": outs, "intact": bool(intact),
-                       "_m": {"stage": name, "len": len(idx), "ids_head": [int(i) for i in idx[:8]], "error": err,
+                       "_m": {"stage": name, "len": len(idx), "ids_head": [int(i) for i in idx[:8]], "error": err, "plots_requested": bool(plot),
                               "intact": bool(intact)}})
 
     for h in hists:
@@ -74,6 +74,12 @@ def _stage_job(job):
         do([i])
     allidx = list(range(st.n))
     do(allidx)
+    if st.plots:
+        # the same batch with every registered plot requested (non-interactive backend): the plot functions get the very arrays
+        # the stage returns - the returned values and the inputs must be what they are without plots
+        # (without the first eight pool entries: boundary classes such as angles above the table, which no run plots)
+        do(allidx[8:], plot=True)
+        do(allidx[8:])
     do(allidx[::-1])
     for cut in (1, st.n // 3, st.n - 1):
         do(allidx[:cut])
